@@ -149,3 +149,74 @@ func (p *GoProg) assignsTo(n ast.Node, obj interface{}) bool {
 	}
 	return found
 }
+
+// EnumSegment enumerates paths starting at (from, fromIdx) that end when a block in stopBlk is entered
+// (Exit = that block, its nodes are not executed) or when the function exits. Each edge is used at most once.
+func (f *FG) EnumSegment(from, fromIdx int, stopBlk map[int]bool, limit int) (paths []*Path, ok bool) {
+	type edgeKey struct{ a, b int }
+	var cur []Ev
+	used := map[edgeKey]int{}
+	ok = true
+	var walk func(b *cfg.Block, start int, first bool)
+	walk = func(b *cfg.Block, start int, first bool) {
+		if !ok {
+			return
+		}
+		if !first && stopBlk[int(b.Index)] {
+			paths = append(paths, &Path{Evs: append([]Ev{}, cur...), Exit: b})
+			if len(paths) > limit {
+				ok = false
+			}
+			return
+		}
+		mark := len(cur)
+		for i := start; i < len(b.Nodes); i++ {
+			cur = append(cur, Ev{Node: b.Nodes[i], Block: int(b.Index)})
+		}
+		if len(b.Succs) == 0 {
+			paths = append(paths, &Path{Evs: append([]Ev{}, cur...), Exit: b})
+			if len(paths) > limit {
+				ok = false
+			}
+			cur = cur[:mark]
+			return
+		}
+		br := f.BranchOf(b)
+		for si, s := range b.Succs {
+			k := edgeKey{int(b.Index), int(s.Index)*2 + si}
+			if used[k] >= 1 {
+				continue
+			}
+			used[k]++
+			m2 := len(cur)
+			if br != nil {
+				cur = append(cur, Ev{Br: br, Taken: si == 0, Block: int(b.Index)})
+			}
+			walk(s, 0, false)
+			cur = cur[:m2]
+			used[k]--
+		}
+		cur = cur[:mark]
+	}
+	walk(f.G.Blocks[from], fromIdx, true)
+	return paths, ok
+}
+
+// LoopHead returns the head block of a for statement: the condition block if there is one, else the body block.
+func (f *FG) LoopHead(loop ast.Stmt) int {
+	head := -1
+	for _, b := range f.G.Blocks {
+		if b.Stmt != loop || !b.Live {
+			continue
+		}
+		switch b.Kind {
+		case cfg.KindForLoop, cfg.KindRangeLoop:
+			return int(b.Index)
+		case cfg.KindForBody:
+			if head < 0 {
+				head = int(b.Index)
+			}
+		}
+	}
+	return head
+}
